@@ -1,5 +1,6 @@
 CONSTANTS
   MaxDev = 1
+  MinBrace = FALSE
   Mutate = TRUE
   Globals = "canon"
 INIT Init
